@@ -18,12 +18,15 @@ def _escapecss(e):
     E.g. the german umlaut 'ä' is escaped as \E4
     """
     s = e.object[e.start : e.end]
-    return (
-        ''.join(
-            [r'\%s ' % str(hex(ord(x)))[2:].upper() for x in s]  # remove 0x from hex
-        ),
-        e.end,
+    escaped = ''.join(
+        [r'\%s ' % str(hex(ord(x)))[2:].upper() for x in s]  # remove 0x from hex
     )
+    # a backslash directly in front (a simple escape of this very character)
+    # serves as the backslash of the hex escape, else it would escape that one
+    before = e.object[: e.start]
+    if (len(before) - len(before.rstrip('\\'))) % 2:
+        escaped = escaped[1:]
+    return escaped, e.end
 
 
 codecs.register_error('escapecss', _escapecss)
